@@ -778,6 +778,13 @@ def _enum_shape(run: Run, cm) -> None:
         ("matches", lambda v: isinstance(v, ast.ListComp) and "allowed_values" in ast.unparse(v)),
     ])
     cfg = CFG(fi.node)
+    # this rule reads ONE shape of the decision (exact member first, then a comprehension of prefix candidates, then tests on its
+    # length). Where the candidates come out of a method of the class that is not read in place (a single-pass helper with an
+    # early return, a generator) there is no comprehension to judge: not decided, rather than a violation for a different proof
+    if not any(isinstance(n, ast.ListComp) and "allowed_values" in ast.unparse(n) for n in walk_no_nested(fi.node)):
+        helpers = [c for c in walk_no_nested(fi.node) if isinstance(c, ast.Call) and isinstance(c.func, ast.Attribute) and isinstance(c.func.value, ast.Name) and c.func.value.id == "self" and cm.has_func(f"EnumConstraint.{c.func.attr}") and "allowed_values" in ast.unparse(cm.func(f"EnumConstraint.{c.func.attr}").node)]
+        if helpers:
+            raise AnalysisError(f"EnumConstraint.evaluate: the candidates are computed by `{ast.unparse(helpers[0].func)}` (not read in place), not by a comprehension over self.allowed_values; exact-first / unique-prefix semantics are not decided in that form")
     sdefs = [n for n in walk_no_nested(fi.node) if isinstance(n, ast.Assign) and isinstance(n.value, ast.Call) and ast.unparse(n.value) == "str(value)" and isinstance(n.targets[0], ast.Name)]
     svar = sdefs[0].targets[0].id if sdefs else "value_str"
     # exact first
